@@ -110,8 +110,35 @@ def _shard_exh(rec, arg):
         rec.sample({"s": "a\\`\"\n", "quoted": my_quote("a\\`\"\n")})
 
 
+# characters that are syntax somewhere in the language (structure openers / closers, comment, separators): a string
+# made only of them must still be data - exhaustive to length 4 (direct channel, both settings)
+SYN_ALPHABET = ["#", "{", "}", "[", "]", "(", ")", "|", ";", "⟨", "⟩", "λ", "@", ":", "\n", " "]
+
+
+def _shard_syn(rec, arg):
+    shard, nshards, L = arg
+    for i, tup in enumerate(itertools.product(SYN_ALPHABET, repeat=L)):
+        if i % nshards != shard:
+            continue
+        s = "".join(tup)
+        _do(rec, s, "direct", False, "exhaustive-syntax-alphabet")
+        if all(c in ASCII_CP for c in s):
+            _do(rec, s, "q-run", True, "exhaustive-syntax-alphabet")
+
+
 def _shard_hyp(rec, arg):
     seed, n = arg
+
+    def t_prog(p, ch, compress):
+        s = p.replace("\r", "")
+        if len(s) > 60 or not all(c in CP for c in s) or (compress and not all(c in ASCII_CP for c in s)):
+            return
+        _do(rec, s, ch, compress, "program-shaped-string")
+
+    from vx import progs
+
+    campaign.hyp_run(t_prog, {"p": progs.program_strategy(3, hot=True, comments=True).map(progs.render), "ch": st.sampled_from(CHANNELS),
+                              "compress": st.booleans()}, seed + 5, max(50, n // 4))
     hard = st.sampled_from(["\\", "`", '"', "\n", "'", "\\\\", "\\`", "\\n", "`\\"])
 
     def mix(alphabet):
@@ -134,6 +161,9 @@ def run(rec, tier, seed):
     ns = campaign.NCPU
     campaign.parallel(rec, _shard_exh, [(s, ns) for s in range(ns)])
     rec.exhaustive.append("strings of length<=3 over {\\ ` \" ' newline a n x 0 λ} in every channel")
+    for L in ((4,) if tier == "quick" else (4, 5)):
+        campaign.parallel(rec, _shard_syn, [(s, ns * 2, L) for s in range(ns * 2)])
+        rec.exhaustive.append(f"strings of length {L} over the {len(SYN_ALPHABET)} structure / comment characters (direct channel; q-run with compression for ASCII ones)")
     n = 1000 if tier == "quick" else 15000
     campaign.parallel(rec, _shard_hyp, [(seed * 1000 + i, n) for i in range(ns)])
 
